@@ -194,12 +194,12 @@ def stop_twin(s0: int, s1: int, s2: int, s3: int, p0: int, p1: int, p2: int, p3:
     return len(led.stops) == 0
 
 
-LIFE = ["await_child_action", "two_children", "when_scope", "await_or", "activate_wait", "activate_immediate", "activate_two_parents", "grandchildren", "shared_action"]
+LIFE = ["await_child_action", "two_children", "when_scope", "await_or", "activate_wait", "activate_immediate", "activate_two_parents", "grandchildren", "shared_action", "activate_twice"]
 SPEC = {
     "property": "C06",
     "functions": FUNCTIONS,
-    "bounds": "9 catalogue programs (parent awaiting/starting children with actions, finish and StopFlow of the parent, when/or-when scope, or-group of flows, two flows sharing an identical action, "
-              "activate of a waiting / immediately finishing flow, two activators with equal and different arguments, grand-children); after the native `Go` prefix, histories of L=2 (quick) / 3-4 (thorough) "
+    "bounds": "10 catalogue programs (parent awaiting/starting children with actions, finish and StopFlow of the parent, when/or-when scope, or-group of flows, two flows sharing an identical action, "
+              "activate of a waiting / immediately finishing flow, two activators with equal and different arguments, one flow activating the same flow twice, grand-children); after the native `Go` prefix, histories of L=2 (quick) / 3-4 (thorough) "
               "events over each alphabet incl. ActionStarted/ActionFinished feedback arriving early, late or never; payload offsets, tie-breaks, optional 10 s idle gap",
     "outside": "hierarchies outside the catalogue; actions started directly inside a when-scope; explicit deactivate; longer histories",
     "assumptions": ["'flows that started an action' are read from FlowState.action_uids; 'started by' from FlowState.parent_uid",
@@ -208,11 +208,12 @@ SPEC = {
                    "an unfinished unstopped action has a running owner; a Stop is only emitted when no owner is running; (iii) per activated (flow, arguments): one running instance iff an activator runs; "
                    "trigger events are answered exactly once iff an activator ran before the step; an immediately finishing activated flow emits its marker once.",
     "conditions": [
-        {"fn": "bounded", "tiers": ("quick",), "slices": c09._slices(LIFE, 2, split=False), "tcond": 900, "tpath": 30, "bound": "prefix + L=2, 9 programs",
+        {"fn": "bounded", "tiers": ("quick",), "slices": c09._slices(LIFE, 2, split=False) + c09._slices(["shared_action_started"], 3), "tcond": 900, "tpath": 30,
+         "bound": "prefix + L=2, 10 programs; L=3 after the shared action was started (partitioned on the first event)",
          "smoke": [{"slice": {"prog": "shared_action", "L": 4}, "args": dict(s0=1, s1=2, s2=4, s3=3, p0=0, p1=0, p2=0, p3=0, c0=0, c1=1, c2=0, tadv=4)},
                    {"slice": {"prog": "activate_two_parents", "L": 4}, "args": dict(s0=3, s1=1, s2=4, s3=2, p0=0, p1=0, p2=0, p3=0, c0=0, c1=0, c2=0, tadv=1)},
                    {"slice": {"prog": "await_child_action", "L": 3}, "args": dict(s0=5, s1=1, s2=2, s3=0, p0=0, p1=0, p2=0, p3=0, c0=0, c1=0, c2=0, tadv=3)}]},
-        {"fn": "bounded", "tiers": ("thorough",), "slices": c09._slices(LIFE, 3) + c09._slices(["await_child_action", "shared_action", "activate_two_parents", "when_scope"], 4),
+        {"fn": "bounded", "tiers": ("thorough",), "slices": c09._slices(LIFE, 3) + c09._slices(["await_child_action", "shared_action_started", "activate_two_parents", "when_scope"], 4),
          "tcond": 3000, "tpath": 60, "bound": "prefix + L=3 all 9 programs, L=4 on 4 programs (partitioned on the first event)"},
         {"fn": "stop_twin", "expect": "counterexample", "slices": [{"prog": "await_child_action", "L": 2}, {"prog": "shared_action", "L": 3, "s0": 1}], "tcond": 300, "tpath": 30, "bound": "twin"},
     ],
